@@ -74,42 +74,51 @@ replace: strrev
 */
 /*@unit
 name: str_trim.empty
-define: VP=str, VSTR_OWN_MEMMOVE, U_TRIM, U_EMPTY
+define: VP=str, VCAP=8, U_FIXED_BUF=8, U_TRIM, U_EMPTY
 src: str.c, obj.c
 enforce: spif_str_trim
 tier: B
-unwind: 2
-bound: empty (NULL,0,0) state only - the loop is unwound twice instead of being closed by its contract (cbmc 6.11 crashes / exhausts memory on a loop contract over a NULL base pointer)
+unwind: 12
+bound: text buffer of exactly 8 bytes holding every text of length 0..7 (all contents
+backend: sat
+timeout: 300
+checks_off: --conversion-check
 */
 /*@unit
 name: str_trim.len0
-define: VP=str, VSTR_OWN_MEMMOVE, U_TRIM, U_NONEMPTY, U_LEN0
+define: VP=str, VCAP=8, U_FIXED_BUF=8, U_TRIM, U_NONEMPTY, U_LEN0
 src: str.c, obj.c
 enforce: spif_str_trim
-loops: 1
-backend: sat,z3
-timeout: 200
-flags: --slice-formula
+tier: B
+unwind: 12
+bound: text buffer of exactly 8 bytes holding every text of length 0..7 (all contents
+backend: sat
+timeout: 300
+checks_off: --conversion-check
 */
 /*@unit
 name: str_trim.blank1
-define: VP=str, VSTR_OWN_MEMMOVE, U_TRIM, U_NONEMPTY, U_BLANK1
+define: VP=str, VCAP=8, U_FIXED_BUF=8, U_TRIM, U_NONEMPTY, U_BLANK1
 src: str.c, obj.c
 enforce: spif_str_trim
-loops: 1
-backend: sat,z3
-timeout: 200
-flags: --slice-formula
+tier: B
+unwind: 12
+bound: text buffer of exactly 8 bytes holding every text of length 0..7 (all contents
+backend: sat
+timeout: 300
+checks_off: --conversion-check
 */
 /*@unit
 name: str_trim.text
-define: VP=str, VSTR_OWN_REALLOC, VSTR_OWN_MEMMOVE, U_TRIM, U_NONEMPTY, U_TEXT
+define: VP=str, VCAP=8, U_FIXED_BUF=8, U_TRIM, U_NONEMPTY, U_TEXT
 src: str.c, obj.c
 enforce: spif_str_trim
-loops: 1
-backend: sat,z3
+tier: B
+unwind: 12
+bound: text buffer of exactly 8 bytes holding every text of length 0..7 (all contents
+backend: sat
 timeout: 300
-flags: --slice-formula
+checks_off: --conversion-check
 */
 /*@unit
 name: ustr_clear.empty
@@ -177,42 +186,51 @@ replace: strrev
 */
 /*@unit
 name: ustr_trim.empty
-define: VP=ustr, VSTR_OWN_MEMMOVE, U_TRIM, U_EMPTY
+define: VP=ustr, VCAP=8, U_FIXED_BUF=8, U_TRIM, U_EMPTY
 src: ustr.c, obj.c
 enforce: spif_ustr_trim
 tier: B
-unwind: 2
-bound: empty (NULL,0,0) state only - the loop is unwound twice instead of being closed by its contract (cbmc 6.11 crashes / exhausts memory on a loop contract over a NULL base pointer)
+unwind: 12
+bound: text buffer of exactly 8 bytes holding every text of length 0..7 (all contents
+backend: sat
+timeout: 300
+checks_off: --conversion-check
 */
 /*@unit
 name: ustr_trim.len0
-define: VP=ustr, VSTR_OWN_MEMMOVE, U_TRIM, U_NONEMPTY, U_LEN0
+define: VP=ustr, VCAP=8, U_FIXED_BUF=8, U_TRIM, U_NONEMPTY, U_LEN0
 src: ustr.c, obj.c
 enforce: spif_ustr_trim
-loops: 1
-backend: sat,z3
-timeout: 200
-flags: --slice-formula
+tier: B
+unwind: 12
+bound: text buffer of exactly 8 bytes holding every text of length 0..7 (all contents
+backend: sat
+timeout: 300
+checks_off: --conversion-check
 */
 /*@unit
 name: ustr_trim.blank1
-define: VP=ustr, VSTR_OWN_MEMMOVE, U_TRIM, U_NONEMPTY, U_BLANK1
+define: VP=ustr, VCAP=8, U_FIXED_BUF=8, U_TRIM, U_NONEMPTY, U_BLANK1
 src: ustr.c, obj.c
 enforce: spif_ustr_trim
-loops: 1
-backend: sat,z3
-timeout: 200
-flags: --slice-formula
+tier: B
+unwind: 12
+bound: text buffer of exactly 8 bytes holding every text of length 0..7 (all contents
+backend: sat
+timeout: 300
+checks_off: --conversion-check
 */
 /*@unit
 name: ustr_trim.text
-define: VP=ustr, VSTR_OWN_REALLOC, VSTR_OWN_MEMMOVE, U_TRIM, U_NONEMPTY, U_TEXT
+define: VP=ustr, VCAP=8, U_FIXED_BUF=8, U_TRIM, U_NONEMPTY, U_TEXT
 src: ustr.c, obj.c
 enforce: spif_ustr_trim
-loops: 1
-backend: sat,z3
+tier: B
+unwind: 12
+bound: text buffer of exactly 8 bytes holding every text of length 0..7 (all contents
+backend: sat
 timeout: 300
-flags: --slice-formula
+checks_off: --conversion-check
 */
 #include "str.h"
 
@@ -342,7 +360,8 @@ __CPROVER_ensures(STR_EMPTY(self))
 #else
 /* a slice of the old text ... */
 __CPROVER_ensures(self->len <= OL0 && (self->len == 0 || vg_exit + (size_t) self->len <= (size_t) OL0))
-__CPROVER_ensures(!(vg_k < (size_t) self->len) || vg_exit + vg_k >= vg_a1 || self->s[vg_k] == __CPROVER_old(self->s[STR_KIDX(self, vg_exit + vg_k)]))
+/* (old text position vg_exit + vg_k is named by the arbitrary ghost vg_k2: __CPROVER_old cannot use the exit value of vg_exit) */
+__CPROVER_ensures(!(vg_k < (size_t) self->len) || vg_k2 != vg_exit + vg_k || self->s[vg_k] == __CPROVER_old(self->s[vg_k2]))
 /* ... that neither starts nor ends with whitespace ... */
 __CPROVER_ensures(self->len == 0 || (!VSTR_ISSPACE(self->s[0]) && !VSTR_ISSPACE(self->s[self->len - 1])))
 /* ... and only whitespace was dropped (instance vg_k2), in front and behind */
@@ -355,6 +374,9 @@ void harness(void)
 {
     VT self;
     STR_BIND_CLASS();
+#ifdef U_FIXED_BUF
+    vg_a1 = U_FIXED_BUF;      /* a constant, so that the buffer is a fixed-size array for cbmc */
+#endif
     VF(trim)(self);
     VERIF_CANARY();
 }
